@@ -1,1 +1,158 @@
-From Coq Require Import ZArith List.
+(* Property C15 - only statements closed by `exact`, each followed by Print Assumptions, and
+   non-vacuity Examples.
+
+   Clauses of the property  ->  theorems (all about JsonModel, the mirror of src/Document/Json.cpp)
+
+   "Json::parse terminates for every NUL-terminated byte string"
+        -> parse_terminates          (explicit fuel 2*length+3 for the recursive descent, length+1 for
+                                      every tokenizer loop; never exhausted; no depth hypothesis needed
+                                      in the model - the C++ stack at depth 1000 is exercised by the check)
+   "reads nothing beyond the terminator"
+        -> parse_reads_in_bounds     (every `++pos.pos` is a checked advance; none steps past the terminator)
+   "either yields a value or reports failure with a line and column that lie inside the text"
+        -> parse_error_position_inside_text (+ position_inside_range, line_counts_breaks_before_offset,
+                                      position_insideb_sound for the executable form used on the
+                                      implementation's answers)
+   "parsing the text produced by Json::toString yields an equal tree" (null, booleans, 32/64-bit
+    integers, NUL-free strings, lists, string-keyed maps)
+        -> parse_toString_roundtrip, parse_toString_equal_tree, parse_toString_identical_when_canonical
+           layers: unescape_escape_inverse, atoll_printf_inverse
+   "Json::stripComments removes exactly the // and /* */ comments outside string literals and leaves
+    every other byte and every line break unchanged"
+        -> stripComments_is_reference (+ stripComments_keeps_every_line_break,
+                                         stripComments_identity_without_slash)
+
+   Modelled as reference functions (libc): printf("%d"/"%lld") = print_dec, atoll = ref_atoll,
+   sscanf("%x") on four hex digits = positional value, strpbrk = find_one_of.  Doubles are outside the
+   property (kept as opaque text).  *)
+From Coq Require Import ZArith List Bool.
+From Json Require Import JsonSpec JsonModel JsonProofsBase JsonProofsTotal JsonProofsStrip JsonProofsRound.
+Import ListNotations.
+Local Open Scope Z_scope.
+
+(* ---- totality ---- *)
+Theorem parse_terminates : forall s : list Z, parse s <> POutOfFuel.
+Proof. exact parse_total. Qed.
+Print Assumptions parse_terminates.
+
+(* ---- bounds ---- *)
+Theorem parse_reads_in_bounds : forall s : list Z, parse s <> POutOfBounds.
+Proof. exact parse_in_bounds. Qed.
+Print Assumptions parse_reads_in_bounds.
+
+(* ---- error position ---- *)
+Theorem parse_error_position_inside_text :
+  forall s line col msg, parse s = PErr line col msg -> position_inside s line col.
+Proof. exact parse_error_position. Qed.
+Print Assumptions parse_error_position_inside_text.
+
+Theorem position_inside_range :
+  forall s line col, position_inside s line col -> 1 <= line <= 1 + nbreaks s /\ 1 <= col.
+Proof. exact JsonProofsTotal.position_inside_range. Qed.
+Print Assumptions position_inside_range.
+
+Theorem line_counts_breaks_before_offset :
+  forall pre post, cuts_crlf pre post = false -> nbreaks (pre ++ post) = nbreaks pre + nbreaks post.
+Proof. exact nbreaks_app. Qed.
+Print Assumptions line_counts_breaks_before_offset.
+
+Theorem position_insideb_sound :
+  forall s line col, position_insideb s line col = true -> position_inside s line col.
+Proof. exact JsonProofsTotal.position_insideb_sound. Qed.
+Print Assumptions position_insideb_sound.
+
+(* ---- round trip ---- *)
+Theorem unescape_escape_inverse :
+  forall s f l rest acc, nulfree s -> (length s < f)%nat ->
+    str_loop f l (escape s ++ 34 :: rest) acc = Ok (l, rest, rev acc ++ s).
+Proof. exact str_loop_escape. Qed.
+Print Assumptions unescape_escape_inverse.
+
+Theorem atoll_printf_inverse :
+  forall z, int64_min <= z <= int64_max -> ref_atoll (print_dec z) = z.
+Proof. exact ref_atoll_print_dec. Qed.
+Print Assumptions atoll_printf_inverse.
+
+Theorem parse_toString_roundtrip :
+  forall v, in_class v = true -> parse (to_string v) = POk (canon v).
+Proof. exact parse_to_string. Qed.
+Print Assumptions parse_toString_roundtrip.
+
+Theorem parse_toString_equal_tree :
+  forall v, in_class v = true -> exists v', parse (to_string v) = POk v' /\ value_eq v v' = true.
+Proof. exact parse_to_string_eq. Qed.
+Print Assumptions parse_toString_equal_tree.
+
+Theorem parse_toString_identical_when_canonical :
+  forall v, canonical v = true -> canon v = v.
+Proof. exact canon_canonical. Qed.
+Print Assumptions parse_toString_identical_when_canonical.
+
+(* ---- stripComments ---- *)
+Theorem stripComments_is_reference : forall s : list Z, strip_comments s = reference_strip s.
+Proof. exact strip_comments_is_reference. Qed.
+Print Assumptions stripComments_is_reference.
+
+Theorem stripComments_keeps_every_line_break :
+  forall s : list Z, filter brk (strip_comments s) = filter brk s.
+Proof. exact strip_keeps_line_breaks. Qed.
+Print Assumptions stripComments_keeps_every_line_break.
+
+Theorem stripComments_identity_without_slash :
+  forall s : list Z, ~ In 47 s -> strip_comments s = s.
+Proof. exact strip_no_slash_identity. Qed.
+Print Assumptions stripComments_identity_without_slash.
+
+(* ---- non-vacuity ---- *)
+(* an object with key a holding the list of 1 and a string with the escapes for LF and U+00E9:
+   the string is x LF C3 A9 *)
+Example ex_parse_value :
+  parse [123;34;97;34;58;91;49;44;34;120;92;110;92;117;48;48;101;57;34;93;125]
+  = POk (JMap [([97], JList [JInt 1; JString [120; 10; 195; 169]])]).
+Proof. vm_compute. reflexivity. Qed.
+
+(* a surrogate pair 😀 becomes the four UTF-8 bytes of U+1F600 *)
+Example ex_parse_surrogates :
+  parse [34;92;117;100;56;51;100;92;117;100;101;48;48;34] = POk (JString [240; 159; 152; 128]).
+Proof. vm_compute. reflexivity. Qed.
+
+(* [1 2]  : error after the second token, line 1 column 5; the position is inside the text *)
+Example ex_parse_error : parse [91;49;32;50;93] = PErr 1 5 E_comma.
+Proof. vm_compute. reflexivity. Qed.
+Example ex_error_inside : position_insideb [91;49;32;50;93] 1 5 = true.
+Proof. vm_compute. reflexivity. Qed.
+
+(* a list whose first string holds a backslash followed by a raw LF, then 1 2 without a comma: the raw
+   line break is counted, the error is on line 2 column 7 (repair 05) *)
+Example ex_parse_error_line2 :
+  parse [91;34;97;92;10;34;44;32;49;32;50;93] = PErr 2 7 E_comma.
+Proof. vm_compute. reflexivity. Qed.
+
+(* a backslash directly before the terminator (repair 01), a truncated \u escape *)
+Example ex_truncated : parse [34;92] = PErr 1 3 E_eof /\ parse [34;92;117;49;50] = PErr 1 6 E_hexdigit.
+Proof. vm_compute. split; reflexivity. Qed.
+
+(* a tree of the class with quotes, backslashes, control characters, non-ASCII bytes, both integer
+   widths, nested list and map; it comes back as its canonical form, here the tree itself *)
+Definition ex_tree : value :=
+  JMap [([107; 34; 92], JList [JNull; JBool true; JInt (-2147483648); JInt64 9223372036854775807;
+                              JString [34; 92; 10; 13; 1; 255; 195; 169]; JList []; JMap []]);
+        ([], JInt64 (-9223372036854775808))].
+Example ex_tree_in_class : in_class ex_tree = true.
+Proof. vm_compute. reflexivity. Qed.
+Example ex_tree_roundtrip : parse (to_string ex_tree) = POk ex_tree /\ canonical ex_tree = true.
+Proof. vm_compute. split; reflexivity. Qed.
+Example ex_int64_small : parse (to_string (JInt64 5)) = POk (JInt 5) /\ value_eq (JInt64 5) (JInt 5) = true.
+Proof. vm_compute. split; reflexivity. Qed.
+
+(* a, a block comment holding a lone star, b, a string literal holding two slashes, a line comment, LF, d:
+   both comments go, the literal and the line break stay *)
+Example ex_strip :
+  strip_comments [97;47;42;32;120;32;42;32;121;32;42;47;98;32;34;47;47;34;32;47;47;32;99;10;100]
+  = [97;98;32;34;47;47;34;32;10;100].
+Proof. vm_compute. reflexivity. Qed.
+(* a literal x, escaped quote, two slashes, y, then a line comment: the escaped quote does not end the
+   literal (repair 04) *)
+Example ex_strip_escape :
+  strip_comments [34;120;92;34;47;47;121;34;32;47;47;32;99] = [34;120;92;34;47;47;121;34;32].
+Proof. vm_compute. reflexivity. Qed.
